@@ -265,13 +265,14 @@ def run(res, tier, seed):
     tpath = os.path.join(wd, "record.trace.ndjson")
     opath = os.path.join(wd, "record.out.ndjson")
     vlib.run_driver("drive_zone", ["record", "--trace", tpath, "--n", str(n_rec), "--seed", str(seed), "--corpus", corpus,
-                                   "--max-judged", "9000"], stdout_path=opath)
+                                   "--max-judged", "9000", "--inc-dir", os.path.join(wd, "include")], stdout_path=opath)
     kinds = {}
     outs = {}
     for v in vlib.read_ndjson(opath):
         kinds[v["kind"]] = kinds.get(v["kind"], 0) + 1
         outs[v["st"]] = outs.get(v["st"], 0) + 1
     mism, tst = _trace_parallel(wd, tpath, shards=12 if thorough else 6)
+    n_rec = sum(kinds.values())          # + the hand-written $INCLUDE situations
     res.traces += n_rec
     res.evaluations += n_rec
     res.extra["recorded_texts_validated"] = n_rec
